@@ -9,7 +9,10 @@ import (
 	"fmt"
 	"os"
 	"path/filepath"
+	"strconv"
 	"strings"
+	"sync/atomic"
+	"time"
 
 	kit "verifkit"
 )
@@ -85,11 +88,26 @@ func c10Gen(r *kit.Rand, idx int) c10Case {
 		f.KVs = append([]kit.GKV{{Key: k, Type: t, Val: c10Scalar(r, t)}}, kvs...)
 		muts = append(muts, fmt.Sprintf("retype[%s]=%d", k, t))
 	}
-	b, fields, _, err := f.Build()
+	b, fields, dataStart, err := f.Build()
 	if err != nil {
 		panic(err)
 	}
-	for k := r.Range(0, 2); k > 0 || len(muts) == 0; k-- {
+	if r.Chance(1, 6) && f.Version != 1 && !f.BigEndian {
+		// a tensor whose byte size wraps around 2^64 to "minus something": the decoder seeks by the size, so the
+		// end of the tensor data lands before its start (target: offset 0, the data start, or a few bytes back)
+		last := f.Tensors[len(f.Tensors)-1] // output.weight, one dimension, F32
+		x := uint64(dataStart) + last.Offset
+		back := kit.Pick(r, []uint64{x, x - uint64(dataStart), 32, 64, x + 32})
+		v := (0 - back) / 4
+		for i := len(fields) - 1; i >= 0; i-- {
+			if fields[i].What == "dim" && fields[i].Key == last.Name {
+				binary.LittleEndian.PutUint64(b[fields[i].Pos:], v)
+				muts = append(muts, fmt.Sprintf("dim[%s]=%d (size wraps to -%d)", last.Name, v, back))
+				break
+			}
+		}
+	}
+	for k := r.Range(0, 2); (k > 0 || len(muts) == 0) && !strings.Contains(strings.Join(muts, ";"), "wraps"); k-- {
 		switch r.Intn(4) {
 		case 0, 1, 2:
 			var cand []kit.Field
@@ -181,7 +199,35 @@ func runC10() {
 		name := fmt.Sprintf("hostile%d", i)
 		var cr, sh apiResult
 		if st == 201 || st == 200 {
+			// memory watcher: a request on a file of a few hundred bytes must not make the server grow by gigabytes
+			stop := make(chan struct{})
+			var peak atomic.Int64
+			go func() {
+				for {
+					select {
+					case <-stop:
+						return
+					case <-time.After(50 * time.Millisecond):
+					}
+					if kb := rssKB(srv.cmd.Process.Pid); kb > peak.Load() {
+						peak.Store(kb)
+						if kb > 1<<20 { // 1 GiB
+							srv.Kill()
+							return
+						}
+					}
+				}
+			}()
 			cr = srv.Create(map[string]any{"model": name, "files": map[string]string{"m.gguf": d}}, nil)
+			close(stop)
+			if peak.Load() > 1<<20 {
+				rep.Violate("c10:api:runaway-allocation:create", fmt.Sprintf("creating a model from a %d-byte hostile file (%s) made the server allocate more than 1 GiB (RSS %d kB) without answering; the server was killed by the monitor", len(c.data), c.Mutation, peak.Load()), c, nil)
+				srv.Kill()
+				if !start() {
+					return
+				}
+				continue
+			}
 			if cr.OK() {
 				rep.Count("api_create_ok", 1)
 				sh = srv.Show(name)
@@ -222,4 +268,22 @@ func runC10() {
 			rep.Sample(map[string]any{"api_case": c, "create": cr.Err})
 		}
 	}
+}
+
+// rssKB reads VmRSS of a process (0 when it is gone).
+func rssKB(pid int) int64 {
+	b, err := os.ReadFile(fmt.Sprintf("/proc/%d/status", pid))
+	if err != nil {
+		return 0
+	}
+	for _, ln := range strings.Split(string(b), "\n") {
+		if strings.HasPrefix(ln, "VmRSS:") {
+			f := strings.Fields(ln)
+			if len(f) >= 2 {
+				n, _ := strconv.ParseInt(f[1], 10, 64)
+				return n
+			}
+		}
+	}
+	return 0
 }
